@@ -1,6 +1,6 @@
 """C06 -- pairwise comparison, dominating tiers and Condorcet consistency.
 
-X4: bounded-exhaustive profiles of untied ballots; definitional oracle (margins by
+X4: bounded-exhaustive profiles of untied and tied ballots; definitional oracle (margins by
 definition, tiers by checking the definition with brute force over all splits); X1 for
 CondoBorda's Borda ties.
 """
@@ -54,10 +54,13 @@ def build_cases(tier, seed):
     for (cands_, bl) in b4[:: (40 if tier == "quick" else 8)]:
         rep.append((cands_, bl + ((bl[0][0], 5),)))
     cs += rep
+    # ballots with tied positions: a ballot that ties two candidates ranks neither above the other
+    from . import common
+    cs += list(common.weak_profiles(tier))
     _CASES = cs
     meta = {
-        "family": famtxt + " + uncondensed variants (a ranking repeated on another ballot with a different weight) ; PairwiseComparisonGraph (margins, tiers, Condorcet winner), DominatingSets, CondoBorda x m x all paths",
-        "assumptions": ["untied ballots only (the pairwise rules are not claimed on tied positions)",
+        "family": famtxt + " + uncondensed variants (a ranking repeated on another ballot with a different weight) + tied ballots Prof(Weak(3),2,{1,2}); PairwiseComparisonGraph (margins, tiers, Condorcet winner), DominatingSets, CondoBorda x m x all paths",
+        "assumptions": ["a ballot that puts two candidates in one tied position contributes to neither direction of that pair",
                         "small scope n<=4 (quick) / n<=5 complete rankings (thorough)"],
     }
     return list(range(len(cs))), meta
